@@ -33,6 +33,16 @@ for p in props:
         c.get("traces_validated_against_impl"), c.get("evaluations"),
         ", ".join(c.get("known_findings_reported", [])) or "—", ev.get("wall_s", 0)))
 
+print("\n#### What each check proves and how it is tied to the code (from meta/Cxx.json)\n")
+for p in props:
+    pid = p["id"]
+    m = j(os.path.join(ROOT, "meta", pid + ".json"))
+    if not m:
+        continue
+    print("* **%s** — %s\n  *Note:* %s\n  *Technique:* %s" % (pid, m.get("level_text", ""), m.get("level_note", ""), m.get("technique", "")))
+    ev = j(os.path.join(ROOT, "evidence", pid + ".json"))
+    if ev:
+        print("  *Theorems:* " + ", ".join("`%s`" % t for t in ev["coverage"].get("theorems", [])))
 print("\n### 11.2 Changes made to /repo (generated from `git -C /repo log`)\n")
 out = subprocess.run(["git", "-C", "/repo", "log", "--reverse", "--format=%h %s"], stdout=subprocess.PIPE).stdout.decode()
 fixes = [l for l in out.splitlines() if re.match(r"^\w+ fix:", l)]
